@@ -77,7 +77,7 @@ class Srv:
                 if s["k"] == "assign" and s["p"]["l"] == l and s["r"]["k"] == "use" and s["r"]["o"]["k"] != "const":
                     src = s["r"]["o"]["p"]["l"]
             cand = src if src is not None else l
-            if b.locals[cand]["name"] == "is_leader":
+            if self._is_leader_flag(b, cand):
                 # skip the early-reject selector (`if is_leader { matches!(..) } else { matches!(..) }`):
                 # the leader branch we want is the one that contains new_client / client events
                 tm = {v: tb for v, tb in t["ts"]}
@@ -89,6 +89,16 @@ class Srv:
                         and not h.events_in(self.dom_region(h, lead), K("set_state", "AwaitingValidation")):
                     return lead, foll
         return None, None
+
+    def _is_leader_flag(self, b, local):
+        """local = (policy.party == policy.leader)"""
+        from an import defs_of
+        for (bi, si, r) in defs_of(b, local):
+            if si != "t" and r["k"] == "bin" and r["op"] in ("Eq", "Ne"):
+                names = ((sm.name_of_operand(b, r["a"]) or "") + " " + (sm.name_of_operand(b, r["b"]) or ""))
+                if "party" in names and "leader" in names:
+                    return True
+        return False
 
     def result_err_edge(self, h, after_block, body=None, bk=None):
         """After the block holding a join_all call: the switch on the awaited Result; returns
@@ -127,7 +137,7 @@ class Srv:
             if lead is None:
                 res.bad(R, "schedule|leader", "cannot locate the leader branch of schedule (switch on is_leader)")
             else:
-                chain = [("client", "validate"), ("reply_ok", "ret"), ("acquire", None), ("permit_store", None),
+                chain = [("client", "validate"), ("reply_ok", "ScheduleError"), ("acquire", None), ("permit_store", None),
                          ("client", "run"), ("set_state", "Validated"), ("self_cmd", "Run")]
                 k, b = h.user
                 reg = self.dom_region(h, lead)
@@ -158,13 +168,13 @@ class Srv:
                 ent, ex = h.arm("Init", sw)
                 self.edge_simple(h, "schedule×Init(follower)", ent, ex, must=[("set_state", "AwaitingValidation")], never=["reply_ok", "reply_err", "reply"], no_break=True)
                 ent, ex = h.arm("ValidateRequested", sw)
-                self.edge_validated(h, "schedule×ValidateRequested", ent, ex, ("validate_ret", "ret"))
+                self.edge_validated(h, "schedule×ValidateRequested", ent, ex, ("ValidateError", "ScheduleError"))
         h = self.h("validate")
         if h:
             ent, ex = h.arm("Init")
             self.edge_simple(h, "validate×Init", ent, ex, must=[("set_state", "ValidateRequested")], never=["reply_ok", "reply_err", "reply"], no_break=True)
             ent, ex = h.arm("AwaitingValidation")
-            self.edge_validated(h, "validate×AwaitingValidation", ent, ex, ("schedule_ret", "validate_ret"))
+            self.edge_validated(h, "validate×AwaitingValidation", ent, ex, ("ScheduleError", "ValidateError"))
         h = self.h("run")
         if h:
             ent, ex = h.arm("Validated")
@@ -722,7 +732,7 @@ class Srv:
                 brk = self.blocks(h, K("flow", "Break"))
                 if not h.every_path_hits(bad_t, brk):
                     probs.append("mismatch does not stop the state machine")
-                re_ = self.blocks(h, K("reply_err", "validate_ret"))
+                re_ = self.blocks(h, K("reply_err", "ValidateError"))
                 if not h.every_path_hits(bad_t, re_):
                     probs.append("the validate caller is not answered with an error")
                 if v and not all(b.edge_dominates(bi, good_t, e.block) for e in v):
@@ -751,7 +761,7 @@ class Srv:
                 cv = h.events_in(reg, K("client", "validate"))
                 js = sorted(h.events_in(reg, K("join_all")), key=lambda e: e.block)
                 v = h.events_in(reg, K("set_state", "Validated"))
-                ro = h.events_in(reg, K("reply_ok", "ret"))
+                ro = h.events_in(reg, K("reply_ok", "ScheduleError"))
                 if cv and js and v:
                     j = [x for x in js if b.dominates(cv[0].block, x.block)][0]
                     ee = self.result_err_edge(h, j.block)
@@ -765,7 +775,7 @@ class Srv:
                             probs.append("a failed follower validation can still reach Validated / reply Ok")
                         if not h.every_path_hits(err_t, self.blocks(h, K("flow", "Break"))):
                             probs.append("a failed follower validation does not stop the policy")
-                        if not h.every_path_hits(err_t, self.blocks(h, K("reply_err", "ret"))):
+                        if not h.every_path_hits(err_t, self.blocks(h, K("reply_err", "ScheduleError"))):
                             probs.append("the schedule caller is not answered with an error")
                         if not b.edge_dominates(sb, ok_t, v[0].block) or not all(b.edge_dominates(sb, ok_t, e.block) for e in ro):
                             probs.append("Validated / reply Ok not dominated by the success of all validate calls")
@@ -866,7 +876,7 @@ class Srv:
                         na = sm.name_of_operand(b, pt["args"][0]) or ""
                         nb = sm.name_of_operand(b, pt["args"][1]) or ""
                         both = na + " " + nb
-                        if "program_hash" in both or "scheduled_hash" in both:
+                        if "program_hash" in both:
                             what = "program_hash"
                         elif "leader" in na and "leader" in nb:
                             what = "leader"
